@@ -34,8 +34,9 @@ impl Vector<Complex::<f64>> {
     pub fn norm_inf(&self) -> f64 {
         let mut result: f64 = 0.0; // the norm of the empty vector
         for i in 0..self.size() {
-            if result < self.vec[i].abs() {
-                result = self.vec[i].abs();
+            let a = self.vec[i].abs();
+            if a.is_nan() || result < a { // a NaN component makes the norm NaN, it is not skipped
+                result = a;
             }
         }
         result
